@@ -15,6 +15,7 @@ import (
 	"strconv"
 	"strings"
 	"sync"
+	"sync/atomic"
 	"testing"
 	"testing/synctest"
 	"time"
@@ -62,6 +63,7 @@ type Config struct {
 	Refresh    bool
 	Pruning    bool
 	Pacing     bool // instantaneous operations, no injected writes: waits are exact
+	Streak     int  // directed pacing run: one object whose Update fails this many times in a row (large backoffs), then succeeds
 	CopySetter bool // SetObjectStatus returns a modified copy and leaves its argument alone (legal: the reconciler uses the returned object)
 	HoldLock   bool // some user transactions keep the table locked for a while of virtual time (needs the hook gate: one run at a time)
 	Extra      int  // further real reconcilers ("r3".."r6": own status slot, own target, own failures) on the same table
@@ -114,6 +116,7 @@ type sim struct {
 	modelRev map[uint64]uint64 // id -> revision of the latest user write
 	r2done   map[uint64]uint64 // id -> payload for which the second reconciler set Done
 	extra    []*extraRec       // further real reconcilers
+	logMu    sync.Mutex
 	gateMu   sync.Mutex
 	gate     chan struct{}   // non-nil while a user transaction holds the table lock across virtual time
 	inflight map[uint64]bool // goroutines between wtxn.beforeLock and wtxn.afterLock (by goroutine id: a goroutine that passed
@@ -121,7 +124,10 @@ type sim struct {
 	mainGID   uint64
 	holds     int
 	bound     time.Duration
-	roundEnds []int64 // event sequence numbers of round ends (metrics callback, under mu)
+	streakLen int
+	everSeen  map[uint64]bool // ids the user has ever written
+	unset     map[uint64]bool // ids whose current version was written with the zero status for the first reconciler
+	roundEnds []int64         // event sequence numbers of round ends (metrics callback, under mu)
 	wmZero    int
 	nextPay   uint64
 	seq       int64 // event sequence (under mu)
@@ -132,7 +138,7 @@ type sim struct {
 	prunes    int
 	log       []string
 	fp        *vkit.Hash64
-	failed    bool
+	failed    atomic.Bool
 	inOp      bool
 	waits     int
 	wmChecks  int
@@ -144,21 +150,25 @@ func (s *sim) nextSeq() int64 { s.seq++; return s.seq }
 
 func (s *sim) now() time.Duration { return time.Since(s.t0) }
 
+// logf is called from the main goroutine, the reconcilers' goroutines and the waiters.
 func (s *sim) logf(f string, a ...any) {
 	line := fmt.Sprintf("%8.3fms ", float64(s.now())/1e6) + fmt.Sprintf(f, a...)
+	s.logMu.Lock()
 	s.log = append(s.log, line)
 	s.fp.Str(fmt.Sprintf(f, a...))
+	s.logMu.Unlock()
 }
 
 func (s *sim) violate(class, key, f string, a ...any) {
-	if s.failed {
+	if !s.failed.CompareAndSwap(false, true) {
 		return
 	}
-	s.failed = true
 	if !s.cfg.Report[class] {
 		return
 	}
-	tail := s.log
+	s.logMu.Lock()
+	tail := append([]string(nil), s.log...)
+	s.logMu.Unlock()
 	if len(tail) > 300 {
 		tail = tail[len(tail)-300:]
 	}
@@ -201,11 +211,42 @@ func (s *sim) userWrite(where string, rng *rand.Rand) {
 		} else {
 			o.Statuses = reconciler.NewStatusSet()
 		}
+		unset := false
+		if !s.cfg.Pacing {
+			switch rng.IntN(24) {
+			case 0, 1:
+				// new contents marked for a forced refresh instead of pending (StatusRefreshing is public API for this)
+				o.Statuses = o.Statuses.Set(rname, reconciler.StatusRefreshing())
+				for _, x := range s.extra {
+					o.Statuses = o.Statuses.Set(x.name, reconciler.StatusRefreshing())
+				}
+				where += " (refreshing)"
+			case 2:
+				// an object the first reconciler was never asked to reconcile: its status is the zero Status (neither pending nor
+				// refreshing), so it must never be passed to Update and its status must be left alone. Only for keys the reconciler
+				// has not met yet: writing a non-pending status over a version it is working on is outside its contract (it would
+				// neither reconcile the new version nor clear the old one's retry)
+				s.mu.Lock()
+				_, known := s.everSeen[id]
+				s.mu.Unlock()
+				if !exists && !known {
+					o.Statuses = o.Statuses.Set(rname, reconciler.Status{})
+					unset = true
+					where += " (status unset)"
+				}
+			}
+		}
 		s.table.Insert(w, o)
 		rev := s.table.Revision(w)
 		// the model is updated while the table lock is held so that concurrent writers are ordered like their commits
 		s.mu.Lock()
 		s.model[id], s.modelRev[id] = o.Payload, rev
+		s.everSeen[id] = true
+		if unset {
+			s.unset[id] = true
+		} else {
+			delete(s.unset, id)
+		}
 		delete(s.r2done, id)
 		s.writes = append(s.writes, userWrite{s.nextSeq(), s.now(), id, o.Payload, rev, where})
 		s.mu.Unlock()
@@ -223,6 +264,7 @@ func (s *sim) userWrite(where string, rng *rand.Rand) {
 			s.mu.Lock()
 			s.model[id], s.modelRev[id] = o.Payload, rev
 			delete(s.r2done, id)
+			delete(s.unset, id)
 			s.writes = append(s.writes, userWrite{s.nextSeq(), s.now(), id, o.Payload, rev, where})
 			s.mu.Unlock()
 			w.Commit()
@@ -233,6 +275,7 @@ func (s *sim) userWrite(where string, rng *rand.Rand) {
 		delete(s.model, id)
 		delete(s.modelRev, id)
 		delete(s.r2done, id)
+		delete(s.unset, id)
 		s.writes = append(s.writes, userWrite{s.nextSeq(), s.now(), id, 0, rev, where})
 		s.mu.Unlock()
 		w.Commit()
@@ -388,6 +431,13 @@ func (o *ops) after(a Attempt, fail bool) error {
 		}
 	}
 	if fail {
+		// the error an operation returns says nothing about the reconciler's own state: a failure is retried whatever it wraps
+		switch a.Seq % 5 {
+		case 0:
+			return fmt.Errorf("injected failure: %w", context.Canceled)
+		case 1:
+			return fmt.Errorf("injected failure: %w", context.DeadlineExceeded)
+		}
 		return errors.New("injected failure")
 	}
 	return nil
@@ -496,7 +546,7 @@ func (o *extraRec) setStatus(obj *RObj, st reconciler.Status) *RObj {
 // checkExtra: the same obligations for the further real reconcilers. final = failures and changes stopped and the bound elapsed.
 func (s *sim) checkExtra(what string, final bool) {
 	for _, x := range s.extra {
-		if s.failed {
+		if s.failed.Load() {
 			return
 		}
 		s.checkExtraOne(x, what, final)
@@ -722,8 +772,21 @@ func (s *sim) convergenceCheck(what string) {
 	}
 	attempts := append([]Attempt(nil), s.attempts...)
 	s.mu.Unlock()
+	unset := map[uint64]bool{}
+	s.mu.Lock()
+	for k := range s.unset {
+		unset[k] = true
+	}
+	s.mu.Unlock()
 	for o := range s.table.All(rt) {
 		k := getStatus(o).Kind
+		if unset[o.ID] {
+			if k != reconciler.StatusKindUnset {
+				s.violate("status", "unset-status-overwritten", "%s: object id=%d payload=%d was written with the zero status (not to be reconciled) and now has status %s", what, o.ID, o.Payload, k)
+				return
+			}
+			continue
+		}
 		if k == reconciler.StatusKindRefreshing && s.cfg.Refresh {
 			// periodic refresh in progress (the reconciler itself marked the reconciled object for refresh) - but a marked object
 			// is updated within the same bound: nothing fails any more
@@ -739,6 +802,9 @@ func (s *sim) convergenceCheck(what string) {
 		}
 	}
 	for id, p := range model {
+		if unset[id] {
+			continue
+		}
 		if target[id] != p {
 			s.violate("conv", "target-differs", "%s: target has payload %d for id=%d, table has %d (last successful operation is not an Update with the latest contents)", what, target[id], id, p)
 			return
@@ -756,6 +822,9 @@ func (s *sim) convergenceCheck(what string) {
 		last[a.ID] = a
 	}
 	for id, a := range last {
+		if unset[id] {
+			continue
+		}
 		if _, live := model[id]; live {
 			if a.Op != "update" || !a.OK || a.Payload != model[id] {
 				s.violate("conv", "last-op", "%s: last operation for live id=%d is %s payload=%d ok=%v, want a successful update with payload %d", what, id, a.Op, a.Payload, a.OK, model[id])
@@ -908,7 +977,7 @@ func Run(t *testing.T, r *vkit.Run, idx int, cfg Config) {
 	defer stop()
 	synctest.Test(t, func(t *testing.T) {
 		s := &sim{r: r, idx: idx, rng: r.Rand(idx), opRng: r.Rand(idx, 7), cfg: cfg, fp: vkit.NewHash(), target: map[uint64]uint64{}, model: map[uint64]uint64{},
-			modelRev: map[uint64]uint64{}, r2done: map[uint64]uint64{}, t0: time.Now(), inflight: map[uint64]bool{}}
+			modelRev: map[uint64]uint64{}, r2done: map[uint64]uint64{}, t0: time.Now(), inflight: map[uint64]bool{}, unset: map[uint64]bool{}, everSeen: map[uint64]bool{}}
 		if cfg.HoldLock {
 			// installed before anything of this run can request a table lock
 			s.mainGID = goid()
@@ -995,7 +1064,39 @@ func Run(t *testing.T, r *vkit.Run, idx int, cfg Config) {
 		s.logf("config %+v", cfg)
 		initAtPhase := s.rng.IntN(cfg.Phases + 1)
 		var waiters sync.WaitGroup
-		for ph := 0; ph < cfg.Phases && !s.failed; ph++ {
+		if cfg.Streak > 0 {
+			// one object failing again and again: the waits between its attempts must stay inside [min, max] however long the streak
+			s.mu.Lock()
+			s.failProb = 100
+			s.mu.Unlock()
+			w := s.db.WriteTxn(s.table)
+			markInit(w)
+			s.mu.Lock()
+			s.initDone = true
+			s.mu.Unlock()
+			s.nextPay++
+			s.table.Insert(w, &RObj{ID: 1, Payload: s.nextPay, Statuses: reconciler.NewStatusSet()})
+			rev := s.table.Revision(w)
+			s.mu.Lock()
+			s.model[1], s.modelRev[1] = s.nextPay, rev
+			s.writes = append(s.writes, userWrite{s.nextSeq(), s.now(), 1, s.nextPay, rev, "streak"})
+			s.mu.Unlock()
+			w.Commit()
+			for i := 0; i < 3*cfg.Streak; i++ {
+				time.Sleep(cfg.BackoffMax + time.Second)
+				synctest.Wait()
+				s.mu.Lock()
+				n := len(s.attempts)
+				s.mu.Unlock()
+				if n >= cfg.Streak {
+					break
+				}
+			}
+			s.mu.Lock()
+			s.streakLen = len(s.attempts)
+			s.mu.Unlock()
+		}
+		for ph := 0; ph < cfg.Phases && !s.failed.Load(); ph++ {
 			s.mu.Lock()
 			s.failProb = []int{0, 20, 50, 80}[s.rng.IntN(4)]
 			s.injectPct = []int{0, 10, 30}[s.rng.IntN(3)]
@@ -1011,7 +1112,7 @@ func Run(t *testing.T, r *vkit.Run, idx int, cfg Config) {
 				s.logf("initializer done")
 			}
 			nw := 1 + s.rng.IntN(8)
-			for i := 0; i < nw && !s.failed; i++ {
+			for i := 0; i < nw && !s.failed.Load(); i++ {
 				s.userWrite("main", s.rng)
 				if s.rng.IntN(2) == 0 {
 					time.Sleep(time.Duration(s.rng.IntN(20)) * time.Millisecond)
@@ -1045,7 +1146,7 @@ func Run(t *testing.T, r *vkit.Run, idx int, cfg Config) {
 						}
 					}
 					for id, mrev := range s.modelRev {
-						if mrev > rev || cur[id] > rev {
+						if mrev > rev || cur[id] > rev || s.unset[id] {
 							continue
 						}
 						attempted := false
@@ -1068,10 +1169,10 @@ func Run(t *testing.T, r *vkit.Run, idx int, cfg Config) {
 			time.Sleep(time.Duration(50+s.rng.IntN(400)) * time.Millisecond)
 			synctest.Wait()
 			s.checkTableAgainstModel(fmt.Sprintf("phase %d", ph))
-			if !s.failed {
+			if !s.failed.Load() {
 				s.checkExtra(fmt.Sprintf("phase %d", ph), false)
 			}
-			if cfg.Pacing && !s.failed {
+			if cfg.Pacing && !s.failed.Load() {
 				// in pacing runs no write races with the reconciler: every change has been seen, the watermark is exact
 				time.Sleep(2 * cfg.BackoffMax)
 				synctest.Wait()
@@ -1096,20 +1197,20 @@ func Run(t *testing.T, r *vkit.Run, idx int, cfg Config) {
 		s.bound = bound
 		time.Sleep(bound)
 		synctest.Wait()
-		if !s.failed {
+		if !s.failed.Load() {
 			s.checkTableAgainstModel("final")
 		}
-		if !s.failed {
+		if !s.failed.Load() {
 			s.convergenceCheck("final")
 		}
-		if !s.failed {
+		if !s.failed.Load() {
 			s.checkExtra("final", true)
 		}
-		if !s.failed && !cfg.Refresh {
+		if !s.failed.Load() && !cfg.Refresh {
 			s.checkWatermark("final")
 		}
 		waiters.Wait()
-		if !s.failed {
+		if !s.failed.Load() {
 			s.pacingChecks()
 		}
 		s.mu.Lock()
@@ -1126,6 +1227,7 @@ func Run(t *testing.T, r *vkit.Run, idx int, cfg Config) {
 		r.Max("reconcilers_on_one_table", int64(2+len(s.extra)))
 		r.Count("user_transactions_holding_the_lock", int64(s.holds))
 		r.Count("zero_watermarks_judged", int64(s.wmZero))
+		r.Max("longest_failure_streak", int64(s.streakLen))
 		r.Count("operation_attempts", int64(len(s.attempts)))
 		r.Count("failed_attempts", int64(nfail))
 		r.Count("user_writes", int64(len(s.writes)))
@@ -1134,12 +1236,16 @@ func Run(t *testing.T, r *vkit.Run, idx int, cfg Config) {
 		r.Count("watermark_comparisons", int64(s.wmChecks))
 		r.Count("convergence_checks", int64(s.convCheck))
 		s.mu.Unlock()
+		s.logMu.Lock()
+		logCopy := append([]string(nil), s.log...)
+		sum := s.fp.Sum()
+		s.logMu.Unlock()
 		if os.Getenv("VERIF_DEBUG") != "" {
-			os.WriteFile("/tmp/recsim-debug.log", []byte(strings.Join(s.log, "\n")), 0o644)
+			os.WriteFile("/tmp/recsim-debug.log", []byte(strings.Join(logCopy, "\n")), 0o644)
 		}
-		r.Case(s.fp.Sum(), nontrivial)
+		r.Case(sum, nontrivial)
 		if r.WantSample() {
-			tail := s.log
+			tail := logCopy
 			if len(tail) > 40 {
 				tail = tail[:40]
 			}
